@@ -412,6 +412,9 @@ pub fn shard_main(a: &Args) -> i32 {
     let features = a.get("features", "default");
     let log_dir = a.map.get("log-dir").map(PathBuf::from);
     let max_violations = a.u64("max-violations", 2) as usize;
+    // cross-build comparison: (input text, hash of its first outcome) for every input of every run
+    let dump_firsts = a.map.get("dump-firsts").map(PathBuf::from);
+    let mut firsts: Vec<(String, u64)> = vec![];
     let shrink_budget = a.u64("shrink-budget", 500) as usize;
 
     let corp = corpus::harvest(&repo);
@@ -451,6 +454,11 @@ pub fn shard_main(a: &Args) -> i32 {
                 continue;
             },
         };
+        if dump_firsts.is_some() {
+            for (idx, o) in &res.obs_first {
+                firsts.push((plan.scenario.inputs[*idx].clone(), crate::scenario::fnv64(&o.outcome)));
+            }
+        }
         count_fired(&plan, &res, &mut fired);
         for (k, v) in &res.outcome_classes {
             *classes.entry(k).or_insert(0) += v;
@@ -586,6 +594,15 @@ pub fn shard_main(a: &Args) -> i32 {
         }
     }
 
+    if let Some(dir) = &dump_firsts {
+        let _ = std::fs::create_dir_all(dir);
+        let mut t = String::new();
+        for (text, h) in &firsts {
+            t.push_str(&J::obj().set("in", J::s(text.clone())).set("out", J::s(format!("{h:016x}"))).to_string_compact());
+            t.push('\n');
+        }
+        let _ = std::fs::write(dir.join(format!("firsts-{from}.jsonl")), t);
+    }
     let wall = real_now_s() - t0;
     let j = J::obj()
         .set("from", J::i(from))
@@ -653,6 +670,9 @@ pub fn run_shards(a: &Args, verif_seed: u64, runs: u64, shards: u64, tier: &str,
             .arg("--max-violations").arg(a.get("max-violations", "2"))
             .arg("--shrink-budget").arg(a.get("shrink-budget", "500"))
             .stdin(Stdio::null());
+        if let Some(d) = a.map.get("dump-firsts") {
+            cmd.arg("--dump-firsts").arg(d);
+        }
         for (k, v) in extra {
             cmd.arg(format!("--{k}")).arg(v);
         }
